@@ -5235,7 +5235,10 @@ class PyCdlib:
 
             (udf_name, udf_parent) = self._udf_name_and_parent_from_path(udf_path_bytes)
 
-            num_extents_to_remove = udf_parent.remove_file_ident_desc_by_name(udf_name,
+            # The File Identifier is stored in its own encoding (latin-1 or
+            # UTF-16), so look it up the way the lookups do and remove that one.
+            udf_fi = udf_parent.find_file_ident_desc_by_name(udf_name).fi
+            num_extents_to_remove = udf_parent.remove_file_ident_desc_by_name(udf_fi,
                                                                               self.logical_block_size)
             # Remove space (if necessary) in the parent File Identifier
             # Descriptor area.
